@@ -189,11 +189,11 @@ func specsC15(tier string) []seqmc.Spec {
 	if tier == "thorough" {
 		mk("lifecycle+counters ts=1..3", 5, []int64{1, 2, 3})
 		out = append(out, mkSpec(fut, 40))
-		return out
+		return append(out, specsLatency(tier)...)
 	}
 	mk("lifecycle+counters ts=1..2", 5, []int64{1, 2})
 	out = append(out, mkSpec(fut, 40))
-	return out
+	return append(out, specsLatency(tier)...)
 }
 
 func specsC12(tier string) []seqmc.Spec { return nil }
